@@ -209,6 +209,3 @@ theorem originMatches_run (env : Prog.Env) (co ro : Bytes) :
 
 end WebAuthn
 
-#print axioms WebAuthn.labelWalk_iff
-#print axioms WebAuthn.labelWalkLoop_eq
-#print axioms WebAuthn.originMatches_run
